@@ -1074,8 +1074,21 @@ static double cheapEstimatedCost(ConnRef *lineRef)
     return length - (route.size() + 1);
 }
 
+// A comparison class used to order connectors by their IDs, so that the
+// choice between equally bad crossing connectors does not depend on where
+// the connectors happen to be allocated.
+class CmpConnRefById
+{
+    public:
+        bool operator() (const ConnRef *u, const ConnRef *v) const
+        {
+            return (u->id() < v->id());
+        }
+};
+
 // A map of connectors to the set of connectors that cross them.
-typedef std::map<ConnRef *, std::set<ConnRef *> > CrossingConnectorsMap;
+typedef std::map<ConnRef *, std::set<ConnRef *>, CmpConnRefById>
+        CrossingConnectorsMap;
 
 // A list of connector crossing maps that don't interact with each other.
 typedef std::list<CrossingConnectorsMap> CrossingConnectorsMapList;
